@@ -1262,3 +1262,49 @@ def rule_sh7(ctx, only=None):
     it.rel_prefix = {PROJ_REL: "", CORE: "utils"}
     it.ctor_model = _proj_ctor
     return _run_object_table(ctx, "SH7", it, _sh7_table(), PROJ_REL, only)
+
+
+# ---------------------------------------------------------------------------
+# SH8: the Lie-group maps on single matrices and arrays of matrices
+
+LIE = "geometry_tools/lie/core.py"
+
+
+def _sh8_table():
+    M2 = dict(arr=(2, 2))
+    M3 = dict(arr=(3, 3))
+    fn = dict(cls=None)
+    return [
+        ("sl2_irrep(n=3)", fn, "sl2_irrep", [M2, 3], {},
+         lambda O: O + (3, 3)),
+        ("sl2_irrep(n=4)", fn, "sl2_irrep", [M2, 4], {},
+         lambda O: O + (4, 4)),
+        ("sl2_to_so21", fn, "sl2_to_so21", [M2], {}, lambda O: O + (3, 3)),
+        ("block_include", fn, "block_include", [M2, 4], {},
+         lambda O: O + (4, 4)),
+        ("slc_to_slr", fn, "slc_to_slr", [M2], {}, lambda O: O + (4, 4)),
+        ("gln_adjoint", fn, "gln_adjoint", [M2], {}, lambda O: O + (4, 4)),
+        ("sln_adjoint", fn, "sln_adjoint", [M2], {}, lambda O: O + (3, 3)),
+        ("sl2c_herm_action", fn, "sl2c_herm_action", [M2], {},
+         lambda O: O + (4, 4)),
+        ("sl2c_to_so31", fn, "sl2c_to_so31", [M2], {},
+         lambda O: O + (4, 4)),
+        ("o_to_pgl", fn, "o_to_pgl", [M3], {"bilinear_form": None},
+         lambda O: O + (2, 2)),
+        ("o_to_pgl(default form)", fn, "o_to_pgl", [M3], {},
+         lambda O: O + (2, 2)),
+    ]
+
+
+def rule_sh8(ctx, only=None):
+    r = ctx.r
+    r.rule("SH8", "the Lie-group maps of lie/core.py interpreted on "
+                  "abstract matrices: for a single matrix and for arrays "
+                  "of matrices of every rank the image has the batch axes "
+                  "of the argument followed by the documented square shape")
+    core = ctx.p.module_by_rel(CORE)
+    lie = ctx.p.module_by_rel(LIE)
+    it = Interp(lie.tree, extra_trees=(("utils", core.tree),))
+    it.project = ctx.p
+    it.rel_prefix = {LIE: "", CORE: "utils"}
+    return _run_object_table(ctx, "SH8", it, _sh8_table(), LIE, only)
